@@ -147,6 +147,10 @@ def run(ctx, replay):
             if chunk == 1 and s > 3000:
                 continue
             jobs.append((data, rng.getrandbits(30), max(1, chunk), 0))
+    # one very large input: 12 MB (thorough: also 40 MB) of pseudo-random bytes in 64 kB chunks
+    for big in ([12] if not ctx.thorough() else [12, 40]):
+        r2 = random.Random(ctx.seed + big)
+        jobs.append((r2.randbytes(big * 1024 * 1024 + 17), rng.getrandbits(30), 65536, 0))
     # many small blocks, each its own read, while the recorder is slow (it falls many blocks behind)
     for k in range(6 if ctx.thorough() else 2):
         nblk = rng.randint(14, 24)
@@ -188,7 +192,7 @@ def run(ctx, replay):
     return ctx.finish(
         level="model_checking",
         rule="one case = (input bytes, chunking/timing of stdin, schedule) through the built rtcmlogger binary over OS pipes, exit awaited, record file read afterwards; sizes around "
-             "the 8096-byte block (0, 1, 17, 8095, 8096, 8097, 3x8096+5; thorough: up to 200 000), binary content; schedule: the Logger.tla counterexample forced with "
+             "the 8096-byte block (0, 1, 17, 8095, 8096, 8097, 3x8096+5, 12 MB; thorough: up to 40 MB), binary content; schedule: the Logger.tla counterexample forced with "
              "VERIF_PAUSE_rec.write (recorder held before its write while the copy loop reaches EOF and main exits) free-running, and 'live' runs in which a burst (incl. exactly 1 and 2 blocks) is followed by silence on an open stdin and must appear on stdout within 8 s; non-trivial = non-empty input",
         assumptions=["equality is judged on length and SHA-1 for every run and byte by byte for inputs up to 1500 bytes",
                      "the pause only delays the recorder: on a correct implementation it merely slows the exit",
